@@ -49,7 +49,11 @@ pub fn frame_len(r: &mut Rng) -> usize {
         1 => r.range(2, 8) as usize,
         2..=6 => r.range(8, 200) as usize,
         7 | 8 => r.range(200, 4096) as usize,
-        _ => r.range(4096, 65_536) as usize,
+        _ => match r.below(4) {
+            0 => r.range(65_530, 65_545) as usize,
+            1 => r.range(65_536, 200_000) as usize,
+            _ => r.range(4096, 65_536) as usize,
+        },
     }
 }
 
